@@ -115,6 +115,7 @@ pub fn push_call_frame(
     src_ptr: u32,
     instr_ptr: u32,
     closure: *mut CaoLangClosure,
+    closure_object: *mut CaoLangObject,
     runtime_data: &mut RuntimeData,
 ) -> ExecutionResult {
     // remember the location after this jump
@@ -136,6 +137,7 @@ pub fn push_call_frame(
                 .checked_sub(arity)
                 .ok_or(ExecutionErrorPayload::MissingArgument)? as u32,
             closure,
+            closure_object,
         })
         .map_err(|_| ExecutionErrorPayload::CallStackOverflow)?;
     Ok(())
@@ -183,6 +185,11 @@ pub fn instr_call_function<T>(
         src_ptr as u32,
         *instr_ptr as u32,
         closure,
+        if closure.is_null() {
+            std::ptr::null_mut()
+        } else {
+            o.as_ptr()
+        },
         &mut vm.runtime_data,
     )?;
 
